@@ -15,7 +15,7 @@ from harness.devcheck import DEV, HOST, calls_of
 from harness.tracecheck import validate
 
 LEVEL = "model_checking"
-TYPINGS = {"led": ["int", "float", "bool"], "rgb": ["int", "float", "bool"], "servo": ["float", "int"], "motor": ["float", "int"]}
+TYPINGS = {"led": ["int", "float", "bool", "frac"], "rgb": ["int", "float", "bool"], "servo": ["float", "int"], "motor": ["float", "int"]}
 
 
 def host_traces(dev: str, hs: list, typings: list[str]) -> list[dict]:
